@@ -128,10 +128,17 @@ def query_contigs(w, idx):
 
 
 def write_fasta(path, contigs, gz=False, name='seq'):
+	"""gz: False / True (single member) / int >= 2 (that many gzip members, as bgzip or `cat a.gz b.gz` produce)."""
 	txt = ''.join(f'>{name}_{i}\n' + '\n'.join(c[j:j + 80] for j in range(0, len(c), 80)) + '\n' for i, c in enumerate(contigs))
 	data = txt.encode('ascii')
+	if gz is True or gz == 1:
+		data = gzip.compress(data, mtime=0)
+	elif gz:
+		n = min(int(gz), max(1, len(data) // 2))
+		step = -(-len(data) // n)
+		data = b''.join(gzip.compress(data[i:i + step], mtime=0) for i in range(0, len(data), step))
 	with open(path, 'wb') as f:
-		f.write(gzip.compress(data, mtime=0) if gz else data)
+		f.write(data)
 
 
 # -- materialisation -----------------------------------------------------------------------------------
